@@ -27,8 +27,12 @@ def _fn(world, cq, name):
     r = world.method(cq, name)
     if r[0].mod in (HID, SER):
         from ..drv import expand_method
-        return r[0], expand_method(world, world.cls(cq), r[2],
-                                   aliases="params")
+        # serial.py: full alias propagation (guards such as
+        # `standalone = not in_transaction` read as the original);
+        # hid.py: parameters of inlined helpers only (its rules name locals)
+        return r[0], expand_method(
+            world, world.cls(cq), r[2],
+            aliases=True if r[0].mod == SER else "params")
     return r[0], r[2]
 
 
@@ -687,14 +691,17 @@ def _check_wait_iff_query(run, repo, world):
         if not sites:
             raise AnalysisError("%s: answer wait not found" % Q)
         for n in sites:
-            bad = set()
-            for w in W.at(n):
-                for f in w:
-                    if f[0] == "cond" and (p + ".") in f[1] and f[1] not in (
-                            p + ".response", p + ".is_query",
-                            p + ".response is None",
-                            p + ".response is not None"):
-                        bad.add((f[1], f[2]))
+            # conditions that hold in EVERY world reaching the wait
+            ws = W.at(n)
+            common = None
+            for w in ws:
+                cf = {(f[1], f[2]) for f in w if f[0] == "cond"}
+                common = cf if common is None else (common & cf)
+            bad = {(t, b) for (t, b) in (common or set())
+                   if (p + ".") in t and t not in (
+                       p + ".response", p + ".is_query",
+                       p + ".response is None",
+                       p + ".response is not None")}
             run.ob("R-WAIT-IFF-QUERY", Q, not bad,
                    "the answer wait is only reached when %s: a query that "
                    "does not satisfy this returns no answer object although "
